@@ -217,7 +217,7 @@ func genStream(r *vlib.RNG, bs, maxBlocks int, count func(string)) streamSpec {
 // ---- damage
 
 type dmgSpec struct {
-	Kind string `json:"kind"` // flip zero garbage setlen cutgarbage zerotail garbagetail dupblock swapblocks
+	Kind string `json:"kind"` // flip zero garbage setlen settype zerotail garbagetail dupblock swapblocks
 	Off  int    `json:"off"`
 	Len  int    `json:"len"`
 	Val  int    `json:"val"`
@@ -272,6 +272,11 @@ func applyDamage(orig []byte, ds []dmgSpec, bs int) (out []byte, ranges [][2]int
 			if hi > d.Off {
 				copy(out[d.Off:hi], garbage(d.Seed, hi-d.Off))
 				ranges = append(ranges, [2]int{d.Off, hi})
+			}
+		case "settype":
+			if d.Off+7 <= len(out) && out[d.Off+6] != byte(d.Val) {
+				out[d.Off+6] = byte(d.Val)
+				ranges = append(ranges, [2]int{d.Off + 6, d.Off + 7})
 			}
 		case "setlen":
 			if d.Off+6 <= len(out) {
@@ -351,7 +356,7 @@ func genDamage(r *vlib.RNG, stream []byte, l *refLayout, bs int, allowNonPositio
 	}
 	var ds []dmgSpec
 	one := func() dmgSpec {
-		w := []int{6, 3, 3, 4, 1, 1, 0, 0}
+		w := []int{6, 3, 3, 4, 1, 1, 0, 0, 2}
 		if allowNonPositional && n > bs {
 			w[6], w[7] = 3, 2
 		}
@@ -414,6 +419,13 @@ func genDamage(r *vlib.RNG, stream []byte, l *refLayout, bs int, allowNonPositio
 				ln = 100
 			}
 			return dmgSpec{Kind: "garbagetail", Len: ln, Seed: r.Uint64()}
+		case 8:
+			// overwrite a chunk's type byte: the values around the valid range, or another valid type
+			if len(l.Chunks) == 0 {
+				return dmgSpec{Kind: "flip", Off: pickOff(), Val: 1}
+			}
+			c := l.Chunks[r.Intn(len(l.Chunks))]
+			return dmgSpec{Kind: "settype", Off: c.Off, Val: []int{0, 5, 5, 6, 255, 1, 2, 3, 4}[r.Intn(9)]}
 		case 6:
 			nb := (n + bs - 1) / bs
 			return dmgSpec{Kind: "dupblock", Off: r.Intn(nb), Val: r.Intn(nb)}
@@ -481,4 +493,3 @@ func cutOffsets(r *vlib.RNG, n int, l *refLayout, bs, extra int, allBelow int) [
 	sort.Ints(out)
 	return out
 }
-
